@@ -293,8 +293,59 @@ def views(ctx, crate):
         ctx.report(clause, "to_ranges:merge-only-adjacent", len(eqs) >= 2, "to_ranges extends the pending range only under %s" % [show(d)[:80] for d in eqs[:2]], at=b.span, kind="N")
 
 
+def view_arithmetic(ctx, crate):
+    """D (per delta 0..=29, hash symbolic): to_range(h, Δ) = h*4^Δ .. (h+1)*4^Δ; the number of
+    deepest-level cells counted per entry by deep_size is 4^Δ; the flat iterators step by +1 up to
+    the last descendant (checked in the codec clause) — so ranges, flat arrays and deep size
+    describe the same set of descendants of each entry."""
+    clause = "views-arithmetic"
+    fn = "nested::to_range"
+    b = ctx.anchor(crate, fn, clause)
+    bad = []
+    if b is not None:
+        for d in range(30):
+            e = Engine(crate); r = e.run(fn, [('p', 'hash'), C('u8', d)])
+            hb = sym_bits('h', 64, 62 - 2 * d)
+            ok = False
+            if r.returns and r.ret[0] == 'agg' and len(r.ret[3]) == 2:
+                bt = Bits(crate, {('p', 'hash'): hb}, e.phi_ops)
+                lo, hi = bt.ev(r.ret[3][0]), bt.ev(r.ret[3][1])
+                want_lo = ([ZERO] * (2 * d) + hb)[:64]
+                # (h + 1) << 2Δ  ==  (h << 2Δ) + 4^Δ : compare through the difference hi - lo == 4^Δ
+                from bits import add_bits, bnot
+                diff = add_bits(hi, [bnot(x) for x in lo], ONE) if isinstance(hi, list) and isinstance(lo, list) else None
+                ok = lo == want_lo and isinstance(hi, list)
+                # the end is start + 4^Δ: evaluate (h+1)<<2Δ on two witnesses of the carry is not enough; use the term shape
+                t_hi = r.ret[3][1]
+                plus1 = ('op', 'add', 'u64', ('p', 'hash'), C('u64', 1))
+                if d == 0: ok = ok and t_hi == plus1 and r.ret[3][0] == ('p', 'hash')
+                else: ok = ok and t_hi[0] == 'op' and t_hi[1] == 'shl' and t_hi[3] == plus1 and r.ret[3][0][0] == 'op' and r.ret[3][0][1] == 'shl' and r.ret[3][0][4] == t_hi[4]
+            if not ok: bad.append(d)
+        ctx.functions.add(fn)
+        ctx.report(clause, fn + ":h<<2Δ..(h+1)<<2Δ", not bad, "for Δ = 0..=29: start = hash << 2Δ (bit-vector), end = (hash + 1) << 2Δ with the same shift" if not bad else "wrong for delta %s" % bad, at=b.span)
+    fn2 = "nside_square_unsafe"
+    b2 = ctx.anchor(crate, fn2, clause)
+    if b2 is not None:
+        bad = []
+        for d in range(30):
+            e = Engine(crate); r = e.run(fn2, [C('u8', d)])
+            if not (r.returns and r.ret == C('u64', 1 << (2 * d))): bad.append(d)
+        ctx.functions.add(fn2)
+        ctx.report(clause, fn2 + ":4^Δ", not bad, "nside_square_unsafe(Δ) = 4^Δ for Δ = 0..=29 (cells counted per entry by deep_size)" if not bad else "wrong for %s" % bad, at=b2.span)
+    # deep_size adds nside_square_unsafe(depth_max - depth) per entry
+    fn3 = M + "BMOC::deep_size"
+    b3 = ctx.anchor(crate, fn3, clause)
+    if b3 is not None:
+        e = Engine(crate, opaque={fn2, M + "BMOC::get_depth"}); e.run(fn3); ctx.functions |= e.visited_fns
+        ns = [ev for ev in e.events.values() if ev.callee == fn2]; gd = [ev for ev in e.events.values() if ev.callee == M + "BMOC::get_depth"]
+        dm = ('fld', ('deref', ('p', 'self')), crate.field_index("nested::bmoc::BMOC", "depth_max"))
+        ok = len(ns) == 1 and len(gd) == 1 and ns[0].args[0] == ('op', 'sub', 'u8', dm, gd[0].ret)
+        ctx.report(clause, "deep_size:sum-of-4^(depth_max-depth)", ok, "deep_size adds nside_square_unsafe(self.depth_max - get_depth(raw)) for each entry", at=b3.span, kind="N")
+
+
 def run(ctx):
     crate = ctx.crate("rel")
+    view_arithmetic(ctx, crate)
     if ctx.tier == "thorough":
         pairs = [(d, m) for m in range(30) for d in range(m + 1)]
     else:
